@@ -308,3 +308,43 @@ def gen_var(tier, seed, kind):
             b = "n<=4" if len(keys) <= 4 else "n<=64" if len(keys) <= 64 else "n<=1024" if len(keys) <= 1024 else "n>1024"
             stats["n"][b] = stats["n"].get(b, 0) + 1
     return cases, stats
+
+
+# ---------------------------------------------------------------- MappedPGMIndex
+def map_configs():
+    out = []
+    for line in open(os.path.join(ROOT, "harness", "map_configs.inc")):
+        m = re.match(r"M\((\w+),\s*(\w+),\s*(\d+),\s*(\d),\s*(\d+),\s*(\d+),\s*(\w+),\s*(\d)\)", line)
+        if m: out.append(dict(name=m.group(1), kbits=int(m.group(3)), signed=int(m.group(4)), eps=int(m.group(5)), epsrec=int(m.group(6)), fdouble=int(m.group(8))))
+    return out
+
+def gen_map(tier, seed):
+    rng = random.Random(seed * 49979687 + 21)
+    cfgs = map_configs()
+    cases, stats = [], {"styles": {}, "first_key": {}, "n": {}}
+    per_cfg = 8 if tier == "quick" else 100
+    cid = 0
+    for cfg in cfgs:
+        lo, hi = krange(cfg["kbits"], cfg["signed"])
+        for j in range(per_cfg):
+            style = rng.choice(["runs", "runs", "steps", "dense", "clustered", "bottom", "top", "sparse"])
+            n = rng.choice([1, 2, 3, 7, rng.randint(1, 64), rng.randint(20, 300), rng.randint(100, 900 if tier == "quick" else 2500)])
+            eps = cfg["eps"]
+            keys = gen_keys(rng, cfg["kbits"], cfg["signed"], n, eps, style)
+            if style == "runs" and rng.random() < 0.6:
+                # runs of every length relative to the search range, around powers of two, ending at n
+                keys, k = [], rng.randint(lo, lo + 1000) if rng.random() < 0.5 else rng.randint(-50, 50) if cfg["signed"] else rng.randint(0, 50)
+                k = max(lo, k)
+                while len(keys) < n:
+                    L = rng.choice([1, 2, 3, 2 * eps + 1, 2 * eps + 2, 2 * eps + 3, 4 * (2 * eps + 2) + 3, 1 << rng.randint(0, 7), (1 << rng.randint(1, 7)) + rng.choice([-1, 1])])
+                    keys += [k] * L; k = min(hi - 1, k + rng.choice([1, 1, 2, 5, 100]))
+                keys = sorted(keys[:max(1, n)])
+            if not keys: continue
+            qs = gen_queries(rng, cfg["kbits"], cfg["signed"], keys, 30 if tier == "quick" else 100, far=False)
+            cid += 1
+            cases.append("MAP m%d %s %d %d %d %d %d | %s | %s" % (cid, cfg["name"], cfg["kbits"], cfg["signed"], cfg["eps"], cfg["epsrec"], cfg["fdouble"],
+                                                                " ".join(map(str, keys)), " ".join(map(str, qs))))
+            stats["styles"][style] = stats["styles"].get(style, 0) + 1
+            fk = "zero" if keys[0] == 0 else "positive" if keys[0] > 0 else "negative"
+            stats["first_key"][fk] = stats["first_key"].get(fk, 0) + 1
+    return cases, stats
